@@ -74,6 +74,10 @@ def main(argv=None):
     except AnalysisError as e:
         print("ANALYSIS-ERROR property=%s %s" % (prop, e))
         return 2
+    except KeyError as e:  # a method / function / class the rules are anchored in is gone from the tree
+        print("ANALYSIS-ERROR property=%s anchor not found in the tree: %s" % (prop, e))
+        traceback.print_exc()
+        return 2
     except Exception:  # internal error of the checker: never a verdict
         print("ANALYSIS-ERROR property=%s internal error" % prop)
         traceback.print_exc()
